@@ -429,6 +429,35 @@ func (o *opCtx) exec(kind, k int) string {
 				break
 			}
 		}
+		// a second configuration that differs only in Q (an exported field), alive at the same time: for a dense
+		// polynomial opened outside the domain every L_i/R_i carries a non-zero multiple of Q, so a proof made under one
+		// Q verifies under that Q only
+		dense := z.Cmp(big.NewInt(256)) >= 0 && ok && err == nil
+		for i := range a {
+			if a[i].IsZero() {
+				dense = false
+				break
+			}
+		}
+		if dense {
+			c2 := *env.Conf
+			c2.Q = ElemFromRef(o.base.P[(k+5)%len(o.base.P)], nil, false)
+			pr2, err2 := ipa.CreateIPAProof(common.NewTranscript("ipa"), &c2, comm, a, zf)
+			if err2 != nil {
+				d.addf("other-Q error")
+				break
+			}
+			var buf2 bytes.Buffer
+			pr2.Write(&buf2)
+			d.add(buf2.Bytes())
+			own, _ := ipa.CheckIPAProof(common.NewTranscript("ipa"), &c2, comm, pr2, zf, y)
+			crossA, _ := ipa.CheckIPAProof(common.NewTranscript("ipa"), env.Conf, comm, pr2, zf, y)
+			crossB, _ := ipa.CheckIPAProof(common.NewTranscript("ipa"), &c2, comm, pr, zf, y)
+			d.addf("own=%v cross=%v/%v", own, crossA, crossB)
+			if !own || crossA || crossB {
+				o.modified("decision-depends-on-another-configuration/Q", fmt.Sprintf("two configurations that differ in Q: proof under the second Q verifies under it: %v; under the first Q: %v; first configuration's proof under the second Q: %v (expected true, false, false)", own, crossA, crossB))
+			}
+		}
 	case opMSM:
 		n := []int{0, 1, 2, 3, 4, 5, 33, 129, 256, 700}[rng.Intn(10)]
 		pts := make([]banderwagon.Element, n)
@@ -612,6 +641,9 @@ func (o *opCtx) exec(kind, k int) string {
 		d.addf("%s", fr.Modulus().Text(16))
 		for i := 0; i < 40; i++ {
 			buf := make([]byte, rng.Intn(65))
+			if i%10 == 9 {
+				buf = make([]byte, 65+rng.Intn(136)) // longer than any buffer a decoder might keep on its stack
+			}
 			rng.Read(buf)
 			var a, b2, c3 fr.Element
 			snapB := append([]byte(nil), buf...)
@@ -931,6 +963,23 @@ func (o *opCtx) exec(kind, k int) string {
 		id := bandersnatch.Identity
 		idb := id.Y.Bytes()
 		d.add(idb[:])
+		// one basis point's window tables, built here (in C12 several goroutines build tables at the same time - the unit
+		// NewIPASettings builds 256 of) and used for one fixed-base multiplication, compared with the variable-base one
+		{
+			tp := ElemFromRef(o.base.P[(k+3)%len(o.base.P)], nil, false)
+			sc := FrFromBig(randScalar(rng))
+			ppt, err := banderwagon.NewPrecompPoint(tp, 8)
+			d.addf("table err=%v", err != nil)
+			if err == nil {
+				acc := bandersnatch.IdentityExt
+				ppt.ScalarMul(sc, &acc)
+				viaTable := banderwagon.VerifFromCoords(acc.X, acc.Y, acc.Z)
+				var direct banderwagon.Element
+				direct.ScalarMul(&tp, &sc)
+				d.elem(&viaTable)
+				d.addf("%v", viaTable.Equal(&direct))
+			}
+		}
 	case opSharedInputs:
 		// APIs that only READ their arguments are called on objects shared by all goroutines
 		tr := common.NewTranscript("shared")
